@@ -10,7 +10,7 @@ LEVEL_TEXT = ("Static structural proof of necessary conditions: (R20.1) in Event
               "in the open-process table is given an end (popped-and-ended, or ended by the final sweep), duration "
               "events get their end before they are listed, and the context extraction runs only after the sweep. "
               "Interval arithmetic, boundary cases, equal-onset rows and Delay shifting are NOT decided.")
-LEVEL_EXTRA = 'Added after the seeded evaluation: (R20.3) after Delay splitting, counts come from the split table; (R20.4) fresh index per Delay-shifted group; (R20.5) every access to the open-process table case-folds the definition name.'
+LEVEL_EXTRA = "Added after the seeded evaluation: (R20.3) after Delay splitting, counts come from the split table; (R20.4) fresh index per Delay-shifted group; (R20.5) every access to the open-process table case-folds the definition name. (R20.6) the type/definition filter of unfold_context mutates neither its argument nor the manager's state."
 
 
 def _raising_guard(ctx, fi, word):
@@ -172,6 +172,19 @@ def run(ctx):
                   "an Onset or Offset that spells the definition name in another letter case does not find the open process: "
                   "the process is never closed (or the Offset raises KeyError)")
     ctx.floor("R20.5", "accesses of the open-process table", len(acc), 3)
+
+    # filtering for a view (remove_types / remove_defs) works on a copy: the manager's own annotations stay as extracted
+    ctx.rule("R20.6", "the type/definition filter of unfold_context never edits the annotation object it is handed (nor the manager's state)")
+    from sa.effects import check_no_mutation
+    fh = cls.methods.get("_filter_hed")
+    if fh is None:
+        raise AnalysisError("anchor EventManager._filter_hed vanished")
+    nev = check_no_mutation(ctx, "R20.6", [fh], lambda fi, o: o[0] in ("P", "S", "F"),
+                            "the annotation passed in / the manager's own state",
+                            "a first unfold_context(remove_types=[...]) strips those tags from em.hed_strings for good: every later "
+                            "view, unfold or type manager sees the stripped annotation")
+    n_split = sum(1 for c in walk_no_nested(fh.node) if isinstance(c, ast.Call) and call_name(c).startswith("split_"))
+    ctx.floor("R20.6", "in-place splitter calls in _filter_hed", n_split, 1)
 
     # popped events are ended
     vt = view(ctx, temporal)
